@@ -163,7 +163,10 @@ pub fn run(ctx: &mut Ctx) {
         // validity: offsets and sub-second parts; emitted text must denote floor(instant) in UTC
         let base = time::OffsetDateTime::from_unix_timestamp(rng.gen_range(-2_000_000_000i64..4_000_000_000)).unwrap();
         let mk = |rng: &mut rand_chacha::ChaCha8Rng, t: time::OffsetDateTime| { let off = time::UtcOffset::from_hms(rng.gen_range(-12..13), if rng.gen_bool(0.5) { 0 } else { 30 } * if rng.gen_bool(0.5) { 1 } else { 0 }, 0).unwrap_or(time::UtcOffset::UTC);
-            (t + time::Duration::nanoseconds(rng.gen_range(0..1_000_000_000))).to_offset(off) };
+            // sub-second part: boundaries of every unit (none, 1 ns, below / at one microsecond and one millisecond, the last nanosecond) or anything
+            const NS: [i64; 12] = [0, 1, 999, 1_000, 250_000, 999_999, 1_000_000, 1_000_001, 1_999_999, 500_000_000, 999_000_000, 999_999_999];
+            let ns = if rng.gen_bool(0.5) { NS[rng.gen_range(0..NS.len())] } else { rng.gen_range(0..1_000_000_000) };
+            (t + time::Duration::nanoseconds(ns)).to_offset(off) };
         let vi = ValidityInfo { signed: mk(&mut rng, base), valid_from: mk(&mut rng, base), valid_until: mk(&mut rng, base + time::Duration::days(300)),
             expected_update: if k % 2 == 0 { Some(mk(&mut rng, base + time::Duration::days(100))) } else { None } };
         if let Ok(Value::Map(m)) = cbor::into_value(vi.clone()) {
